@@ -13,6 +13,7 @@ var Registry = map[string]func() int{
 	"C09": C09,
 	"C10": C10,
 	"C11": C11,
+	"C06": C06,
 }
 
 func IDs() []string {
